@@ -63,12 +63,70 @@ def selection_unique_step():
     return _prove(hyps, goal)
 
 
-LEMMAS = [('concat-distinct', concat_distinct)]
+def hps_fixed_point_consistency():
+    """C17, first clause ("pseudo-marginals agree on every shared sub-region") as a lemma over the update equations that
+    pv/contracts/hps.py verifies on the real hazan_peng_shashua (convex case: all counting numbers 1, checked on build_graph's text).
+
+    Fix an edge p -> r of the region graph, P >= 1 the number of parents of r, and two arbitrary cells x, y of region r.  Per cell z:
+        a(z)   = messages[p, r](z)        downward message         b(z) = messages[r, p](z)      upward message
+        A(z)   = logsumexp over p minus r of ( pot[p] + sum_{c != r} messages[c, p] - sum_{p1} messages[p, p1] )   (z)
+        T(z)   = pot[r](z) + sum_c messages[c, r](z) + sum_{p1} messages[p1, r](z)        Sdn(z), Sup(z) the two sums over the parents of r
+    Hypotheses = the verified equations at a stationary point (messages == new; every message is centred by a constant):
+        E1  a(z) = A(z) - k1                                              [parent-to-child:* sites]
+        E2  a(z) + b(z) = cc * T(z) - k2,  cc = 1 / (1 + P)               [child-to-parent:equation, weight-of-the-upward-message]
+        E2s Sdn(z) + Sup(z) = P * cc * T(z) - K2                          [E2 summed over the P parents of r: linearity of finite sums]
+        B   belief_r(z) = pot[r](z) + C(z) - Sup(z),  lse_{p minus r}(belief_p)(z) = A(z) + b(z)    [belief-equation; an addend that depends
+            on r's variables only moves out of the logsumexp over the others]
+    Conclusion: lse_{p minus r}(belief_p) - belief_r is the same at x and at y, i.e. the two tables agree up to one additive constant,
+    which the final normalisation of both to log(total) makes zero (logsumexp(f + c) = logsumexp(f) + c)."""
+    R = z3.RealSort()
+    P, cc, k1, k2, K2 = z3.Reals('P cc k1 k2 K2')
+    hyps = [P >= 1, cc * (1 + P) == 1]
+    diff = {}
+    for z in ('x', 'y'):
+        a, b, A, potr, C, Sdn, Sup, U = [z3.Real('%s_%s' % (n, z)) for n in ('a', 'b', 'A', 'potr', 'C', 'Sdn', 'Sup', 'U')]
+        T = potr + C + Sdn
+        hyps += [U * (1 + P) == T,                 # U = cc * T  (stated through the defining equation of cc to stay in linear arithmetic over P*U)
+                 a == A - k1,
+                 a + b == U - k2,
+                 Sdn + Sup == P * U - K2]
+        belief_r = potr + C - Sup
+        diff[z] = (A + b) - belief_r
+    return _prove(hyps, diff['x'] == diff['y'])
 
 
-def check_all():
+def hps_belief_is_stationary():
+    """C17, second clause: the belief equation IS the stationarity condition of the Lagrangian of
+        maximise  sum_r <pot_r, b_r> + sum_r H(b_r)   subject to  sum_{p minus r} b_p = b_r  (multiplier lam_{p,r}(x_r)),  sum b_r = total (nu_r)
+    with the upward messages as multipliers: for any message values, with log b_r = pot_r + C - Sup + kappa_r (belief-equation, c0 = 1,
+    kappa_r the normalisation constant),
+        d/d b_r(x) :  pot_r(x) - (log b_r(x) + 1) + C(x) - Sup(x)          [C: multipliers of r's children, entering with +; Sup: those
+                                                                             of the constraints towards r's parents, entering with -]
+    is the same number at every cell x (namely -kappa_r - 1 =: nu_r).  Together with primal feasibility at a stationary point
+    (hps-fixed-point-consistency) these are the KKT conditions of a concave programme with linear constraints, which are sufficient
+    for the global optimum, unique by strict concavity of the entropies (convex duality: textbook, assumed)."""
+    kappa = z3.Real('kappa')
+    E = {}
+    hyps = []
+    for z in ('x', 'y'):
+        potr, C, Sup, logb = [z3.Real('%s_%s' % (n, z)) for n in ('potr', 'C', 'Sup', 'logb')]
+        hyps.append(logb == potr + C - Sup + kappa)
+        E[z] = potr - (logb + 1) + C - Sup
+    return _prove(hyps, z3.And(E['x'] == E['y'], E['x'] == -kappa - 1))
+
+
+LEMMAS = [('concat-distinct', concat_distinct), ('hps-fixed-point-consistency', hps_fixed_point_consistency),
+          ('hps-belief-is-stationary', hps_belief_is_stationary)]
+
+
+SEQUENCE_LEMMAS = ('concat-distinct',)          # the ones the sequence theory uses as axioms; the others are reported where they are used
+
+
+def check_all(names=SEQUENCE_LEMMAS):
     out = []
     for name, fn in LEMMAS:
+        if names is not None and name not in names:
+            continue
         try:
             v, sec = fn()
         except z3.Z3Exception as e:
